@@ -77,7 +77,7 @@ func init() {
 		Assumptions: []string{
 			"databases are MemDBs behind a wrapper that gives them goleveldb's read semantics (ErrNotFound on Load/Exist of a missing key, copies in and out); batches are atomic (C19 checks that promise per backend); torn writes inside one batch or one Set are not modelled",
 			"a crash is a prefix cut of the global sequence of durable database write units; the three concurrent writers of SaveBlock are forced into each of their 6 relative orders by holding a writer at its first write; GOMAXPROCS alternates 2/16 per case",
-			"flat key/value mode: the undo file kvState.wal is a real file in a per-node directory; file operations (Truncate/Write/Sync) bypass dbm.DB and are not cut: after a simulated crash the file holds the undo records of the whole interrupted commit (a superset of what a crash at that point leaves; surplus records restore values that are already in place)",
+			"flat key/value mode: the undo file kvState.wal is a real file in a per-node directory; its operations (Truncate/Write/Sync) bypass dbm.DB, so they are cut only at the adjacent database writes: after a simulated crash at unit k the file is cut back to the size it had when database write k+1 was attempted (it is append-only within one commit); a crash between two file operations without a database write in between is not modelled",
 			"the interrupted block is re-delivered after restart by the harness (CheckBlock+CommitBlock+ApplyBlock), standing in for WAL replay / block gossip; validator-set changes are not generated in the crash lane (the white-list contract is not driven)",
 			"duplicate-vote evidence is added to the node's evidence pool before the block that carries it is applied (a node that never saw the evidence panics in EvidenceStore.getEvidenceInfo — outside C13)",
 			"pruning lane: trie mode; validator changes are injected at the validators argument of BlockExecutor.ApplyBlock; ConsensusState is constructed but not started and its exported Height field is advanced by the harness (or a fresh ConsensusState is built per tick)",
